@@ -107,13 +107,80 @@ Definition run_case (args : list Z) : list Z :=
   | _ => [BADCASE]
   end.
 
-Definition entry (sub : Z) (args : list Z) : list Z :=
+Definition entry0 (sub : Z) (args : list Z) : list Z :=
   if sub =? 0 then run_case args else [BADCASE].
 
 (* anchor: cap 2, two threads, push 7 || pop *)
 Example anchor1 :
-  entry 0 [1; 0; 0; 0; 2;  1; 7;  1; 0;  12; 0;0;0;0; 1;1;1; 0;0; 1;1;1]
+  entry0 0 [1; 0; 0; 0; 2;  1; 7;  1; 0;  12; 0;0;0;0; 1;1;1; 0;0; 1;1;1]
   = [0; 0; 0; 1; 1; 1; 0; 0; 0; 0; 1; 1; 2; 0; 0; 0; 0; 1; 3; 1; 0; 1; 1; 1; 0;
      1; 1; 1; 0; 0; 0; 0; 1; 1; 1; 2; 0; 0; 0; 0; 2; 0; 1; 2; 2; 1; 0; 0; -1;
      2; 1; 1; 3; 2; 0; 0; -2; 0; 1; 7; 1; 0; 1].
 Proof. vm_compute. reflexivity. Qed.
+
+(* ---- sub 2: the history judge on the implementation's output ---- *)
+From V Require Import Model.SyncRingJudge.
+
+(* walk the observed steps up to the -1 marker *)
+Fixpoint judge_steps (fuel : nat) (cap : Z) (progs : list (list Z)) (s : jstate) (l : list Z) : jstate * list Z :=
+  match fuel with
+  | O => ({| j_q := j_q s; j_ths := j_ths s; j_ok := false |}, l)
+  | S f =>
+      match l with
+      | [] => ({| j_q := j_q s; j_ths := j_ths s; j_ok := false |}, [])
+      | x :: r =>
+          if x =? -1 then (s, r)
+          else if x <? -1 then      (* warp: 2^32 + x push/pop pairs by a ghost thread: content unchanged *)
+            judge_steps f cap progs s r
+          else
+            match r with
+            | 0 :: r' => judge_steps f cap progs (j_start cap progs s (Z.to_nat x)) r'
+            | 2 :: r' => judge_steps f cap progs s r'
+            | 1 :: ek :: loc :: a :: b :: res :: r' =>
+                let s1 := {| j_q := j_q s; j_ths := map (look cap (j_q s)) (j_ths s); j_ok := j_ok s |} in
+                if (ek =? EvCasU32) && (res =? 1) && (loc =? LocTail) then judge_steps f cap progs (j_lp cap s1 (Z.to_nat x) true) r'
+                else if (ek =? EvCasU32) && (res =? 1) && (loc =? LocHead) then judge_steps f cap progs (j_lp cap s1 (Z.to_nat x) false) r'
+                else judge_steps f cap progs s1 r'
+            | _ => ({| j_q := j_q s; j_ths := j_ths s; j_ok := false |}, [])
+            end
+      end
+  end.
+
+Fixpoint check_threads (ths : list tstate) (l : list Z) : bool * list Z :=
+  match ths with
+  | [] => (true, l)
+  | t :: rest =>
+      let (res, l') := get_list l in
+      let ok := check_results (rev (t_done (finish t))) res in
+      let (ok', l'') := check_threads rest l' in (ok && ok', l'')
+  end.
+
+(* final quiescent state: counters differ by the content's length and the slots hold it in order *)
+Fixpoint slot_vals (l : list Z) : list Z := match l with v :: _ :: r => v :: slot_vals r | _ => [] end.
+Definition check_final (cap : Z) (q : list Z) (l : list Z) : bool :=
+  match l with
+  | m :: h :: t :: slots =>
+      let vs := slot_vals slots in
+      (m =? -2) && (u32 (t - h) =? Z.of_nat (length q)) &&
+      list_eqb (map (fun j => nth (Z.to_nat ((h + Z.of_nat j) mod cap)) vs (-1)) (seq 0 (length q))) q
+  | _ => false
+  end.
+
+Definition judge (args : list Z) : list Z :=
+  let (cs, r0) := get_list args in
+  let (out, _) := get_list r0 in
+  match cs with
+  | k :: bh :: bl :: fill :: nt :: r =>
+      let n := Z.to_nat nt in
+      let (progs, _) := get_lists n r in
+      let cap := 2 ^ k in
+      let q0 := map fill_val (map Z.of_nat (seq 0 (Z.to_nat fill))) in
+      let s0 := {| j_q := q0; j_ths := repeat {| t_next := O; t_cur := None; t_done := [] |} n; j_ok := true |} in
+      let (s, rest) := judge_steps (length out + 1) cap progs s0 out in
+      let (okr, rest') := check_threads (j_ths s) rest in
+      [zb (j_ok s && okr && check_final cap (j_q s) rest')]
+  | _ => [0]
+  end.
+
+Definition entry (sub : Z) (args : list Z) : list Z :=
+  if sub =? 2 then judge args else entry0 sub args.
